@@ -2089,15 +2089,16 @@ fn do_render_node<T: Write, D: TextDecorator>(
         Ol(start, items) => {
             let num_items = items.len();
 
-            // The prefix width could be at either end if the start is negative.
-            let min_number = start;
-            // Assumption: num_items can't overflow isize.
-            let max_number = start.saturating_add((num_items as i64) - 1);
-            let prefix_width_min =
-                UnicodeWidthStr::width(renderer.ordered_item_prefix(min_number).as_str());
-            let prefix_width_max =
-                UnicodeWidthStr::width(renderer.ordered_item_prefix(max_number).as_str());
-            let prefix_width = max(prefix_width_min, prefix_width_max);
+            // The widest marker can be anywhere in the list (negative start,
+            // decorators which don't number in decimal), so look at all of them.
+            let mut prefix_width = 0;
+            for k in 0..num_items {
+                let number = start.saturating_add(k as i64);
+                prefix_width = max(
+                    prefix_width,
+                    UnicodeWidthStr::width(renderer.ordered_item_prefix(number).as_str()),
+                );
+            }
             let prefixn = format!("{: <width$}", "", width = prefix_width);
             let i: Cell<_> = Cell::new(start);
 
@@ -2856,13 +2857,15 @@ pub use ansi_colours::from_read_coloured;
 mod tests;
 
 fn calc_ol_prefix_size<D: TextDecorator>(start: i64, num_items: usize, decorator: &D) -> usize {
-    // The prefix width could be at either end if the start is negative.
-    let min_number = start;
-    // Assumption: num_items can't overflow isize.
-    let max_number = start.saturating_add((num_items as i64) - 1);
-
-    // This assumes that the decorator gives the same width as default.
-    let prefix_width_min = UnicodeWidthStr::width(decorator.ordered_item_prefix(min_number).as_str());
-    let prefix_width_max = UnicodeWidthStr::width(decorator.ordered_item_prefix(max_number).as_str());
-    max(prefix_width_min, prefix_width_max)
+    // The widest marker can be anywhere in the list (negative start, decorators
+    // which don't number in decimal), so look at all of them.
+    let mut prefix_width = 0;
+    for k in 0..num_items {
+        let number = start.saturating_add(k as i64);
+        prefix_width = max(
+            prefix_width,
+            UnicodeWidthStr::width(decorator.ordered_item_prefix(number).as_str()),
+        );
+    }
+    prefix_width
 }
